@@ -3029,3 +3029,35 @@ func runNoExtensionIsInert(c *Ctx, rule string) {
 	}
 	c.Stats[rule+" no-op hooks"] = n
 }
+
+// runTablesAreLiterals: the tables of the NYCT alerts extension (priority -> effect, the timetabled no-service
+// priorities, ...) are package-level maps written out as literals of constants: assigned once in the initialiser and
+// only looked up afterwards. A table that is filled in at init time from the names of the enum, or copied from its own
+// entries, silently gains or loses entries when a name does not follow the assumed pattern.
+func runTablesAreLiterals(c *Ctx, rule string) {
+	p := c.P
+	n := 0
+	for _, pkg := range p.SSA.AllPackages() {
+		if pkg.Pkg.Path() != pkgPathOf("nyctalerts") {
+			continue
+		}
+		var names []string
+		for name := range pkg.Members {
+			names = append(names, name)
+		}
+		sort.Strings(names)
+		for _, name := range names {
+			g, ok := pkg.Members[name].(*ssa.Global)
+			if !ok {
+				continue
+			}
+			if _, isMap := deref(g.Type()).Underlying().(*types.Map); !isMap {
+				continue
+			}
+			n++
+			ks, _ := constMapOf(g)
+			c.Check(ks != nil, rule, "nyctalerts."+name, "the table is a literal of constants", p.pos(g.Pos()), fmt.Sprintf("%d entries, assigned once in the initialiser, only looked up afterwards", len(ks)), "the table is not a literal of constants that is only read: entries are computed or added at run time (from enum names, from other entries), so which priorities it holds is no longer what is written down")
+		}
+	}
+	c.Stats[rule+" package-level tables"] = n
+}
